@@ -170,8 +170,27 @@ func (r *runner) flush() {
 	if dbg {
 		fmt.Fprintf(os.Stderr, "[%6.1fs] flush %d cases (stream %s), evals so far %d\n", c.Elapsed().Seconds(), len(cases), cases[0].Stream, c.Res.Evaluations)
 	}
+	reqs := make([]runReq, len(cases))
+	for i, g := range cases {
+		tag := r.tagFor()
+		reqs[i] = runReq{ID: i, Src: g.Prog.Source(tag), Tag: tag, Nodes: true}
+	}
+	impls := r.pool.run(reqs)
+	if dbg {
+		fmt.Fprintf(os.Stderr, "[%6.1fs]   origami answered\n", c.Elapsed().Seconds())
+	}
+	// A program of a known stream may run (nearly) forever under the known defect — `break 3`
+	// that ends one loop only, inside recursion. The interpreter shows it by its time; the model has
+	// no clock, so it is not asked about those.
+	ask := make([]int, len(cases)) // index of the case's first answer line, -1 = not asked
 	var lines []string
-	for _, g := range cases {
+	for i, g := range cases {
+		slow := impls[i].Status == "hang" || impls[i].Status == "died" || impls[i].Ms > 400
+		if strings.HasPrefix(g.Stream, "known") && slow {
+			ask[i] = -1
+			continue
+		}
+		ask[i] = len(lines)
 		sx := g.Prog.Sexp()
 		lines = append(lines, "model\t"+strconv.Itoa(modelFuel)+"\t"+sx, "spec\t"+strconv.Itoa(modelFuel)+"\t"+sx, "nodes\t"+sx, "frag\t"+sx)
 	}
@@ -189,17 +208,8 @@ func (r *runner) flush() {
 			return
 		}
 	}
-	reqs := make([]runReq, len(cases))
-	for i, g := range cases {
-		tag := r.tagFor()
-		reqs[i] = runReq{ID: i, Src: g.Prog.Source(tag), Tag: tag, Nodes: true}
-	}
 	if dbg {
 		fmt.Fprintf(os.Stderr, "[%6.1fs]   model answered\n", c.Elapsed().Seconds())
-	}
-	impls := r.pool.run(reqs)
-	if dbg {
-		fmt.Fprintf(os.Stderr, "[%6.1fs]   origami answered\n", c.Elapsed().Seconds())
 	}
 	for i, g := range cases {
 		if r.stopped {
@@ -226,11 +236,14 @@ func (r *runner) flush() {
 		c.SampleSome(map[string]any{"stream": g.Stream, "source": g.Source, "output": ref.Out}, 97)
 
 		// ---- correspondence with the Lean model
-		if answers != nil {
-			model := parseModel(answers[4*i])
-			spec := parseModel(answers[4*i+1])
-			nodes := answers[4*i+2]
-			frag := answers[4*i+3]
+		if ask[i] < 0 {
+			c.Hit("model-not-asked:slow-under-known-defect")
+		}
+		if answers != nil && ask[i] >= 0 {
+			model := parseModel(answers[ask[i]])
+			spec := parseModel(answers[ask[i]+1])
+			nodes := answers[ask[i]+2]
+			frag := answers[ask[i]+3]
 			if model.Status == "timeout" && (impl.Status == "died" || impl.Status == "hang") {
 				c.Hit("both-diverge") // the model runs out of fuel, the interpreter out of stack / time
 			} else if model.Status != impl.Status || model.Out != impl.Out {
